@@ -131,3 +131,217 @@ def gen_lines_file(rng):
     return img, dict(cls=cls, le=le, versions=shape)
 
 
+
+
+# ---------------------------------------------------------------- call frame information
+FRAME_MACH = {  # machine: (class, code align, data align, return column, CFA register, callee-saved registers)
+    62: (64, 1, -8, 16, 7, [3, 6, 12, 13, 14, 15]),
+    3: (32, 1, -4, 8, 4, [3, 5, 6, 7]),
+    183: (64, 4, -8, 30, 31, [19, 20, 21, 22, 29, 30]),
+}
+
+
+def gen_cfa_program(rng, caf, daf, cfa_reg, saved, n):
+    """A prologue/epilogue-shaped instruction sequence: every register rule is an offset rule, states are
+    remembered before they are restored."""
+    out = bytearray()
+    depth = 0
+    cfa_off = abs(daf)
+    free = list(saved)
+    rng.shuffle(free)
+    used = []
+    for i in range(n):
+        k = rng.random()
+        if k < 0.3:
+            d = rng.choice([1, 2, 4, 7, 0x3f, 0x40, 300, 70000])
+            if d < 0x40:
+                out.append(0x40 | d)
+            elif d < 0x100:
+                out += bytes([0x02, d])
+            elif d < 0x10000:
+                out += b'\x03' + struct.pack('<H', d)
+            else:
+                out += b'\x04' + struct.pack('<I', d)
+        elif k < 0.5:
+            cfa_off += abs(daf) * rng.choice([1, 2, 6])
+            out += b'\x0e' + uleb(cfa_off)
+        elif k < 0.7 and free:
+            r = free.pop()
+            used.append(r)
+            off = rng.randint(1, 12)
+            if r < 0x40 and rng.random() < 0.8:
+                out += bytes([0x80 | r]) + uleb(off)
+            else:
+                out += b'\x05' + uleb(r) + uleb(off)
+        elif k < 0.76:
+            out += b'\x0d' + uleb(rng.choice(saved))
+        elif k < 0.8:
+            out += b'\x0c' + uleb(cfa_reg) + uleb(cfa_off)
+        elif k < 0.86:
+            out += b'\x0a'
+            depth += 1
+        elif k < 0.92 and depth:
+            out += b'\x0b'
+            depth -= 1
+        elif k < 0.96 and used:
+            r = rng.choice(used)
+            out += bytes([0xc0 | r]) if r < 0x40 else b'\x06' + uleb(r)
+        else:
+            out += b'\x2e' + uleb(rng.choice([0, 16, 32]))      # DW_CFA_GNU_args_size
+    return bytes(out)
+
+
+def gen_frames_file(rng):
+    """-> (image, description): .eh_frame ('zR' CIEs, pc-relative sdata4 pointers) and/or .debug_frame
+    (CIE versions 1, 3, 4) with FDEs whose programs look like prologues and epilogues."""
+    from .. import oracles
+    machine = rng.choice(sorted(FRAME_MACH))
+    cls, caf, daf, ra, cfa_reg, saved = FRAME_MACH[machine]
+    asz = cls // 8
+    A = '<Q' if asz == 8 else '<I'
+    secs = {}
+    addrs = {}
+    shape = {}
+    init = b'\x0c' + uleb(cfa_reg) + uleb(abs(daf)) + (bytes([0x80 | ra]) + uleb(1) if ra < 0x40 else b'')
+    if rng.random() < 0.75:
+        base = 0x2000
+        sec = bytearray()
+        for c in range(rng.choice([1, 2])):
+            cie_off = len(sec)
+            body = struct.pack('<IB', 0, 1) + b'zR\0' + uleb(caf) + sleb(daf) + uleb(ra) + uleb(1) + bytes([0x1b]) + init
+            body += b'\0' * (-(len(body) + 4) % asz)
+            sec += struct.pack('<I', len(body)) + body
+            for f in range(rng.choice([1, 2, 4])):
+                fde_off = len(sec)
+                prog = gen_cfa_program(rng, caf, daf, cfa_reg, saved, rng.choice([2, 6, 15]))
+                pc = 0x1000 + 0x100 * f + 0x1000 * c
+                field = base + fde_off + 8
+                fb = struct.pack('<I', fde_off + 4 - cie_off) + struct.pack('<i', pc - field) + struct.pack('<I', rng.choice([0x20, 0x80, 0x1234])) + uleb(0) + prog
+                fb += b'\0' * (-(len(fb) + 4) % asz)
+                sec += struct.pack('<I', len(fb)) + fb
+        sec += b'\0\0\0\0'
+        secs['.eh_frame'] = bytes(sec)
+        addrs['.eh_frame'] = base
+        shape['eh'] = True
+    if rng.random() < 0.6 or not secs:
+        sec = bytearray()
+        vers = []
+        for c in range(rng.choice([1, 2])):
+            ver = rng.choice([1, 3, 4])
+            vers.append(ver)
+            cie_off = len(sec)
+            body = struct.pack('<IB', 0xffffffff, ver) + b'\0' + (bytes([asz, 0]) if ver == 4 else b'') + uleb(caf) + sleb(daf) + \
+                (bytes([ra]) if ver == 1 else uleb(ra)) + init
+            body += b'\0' * (-(len(body) + 4) % asz)
+            sec += struct.pack('<I', len(body)) + body
+            for f in range(rng.choice([1, 3])):
+                prog = gen_cfa_program(rng, caf, daf, cfa_reg, saved, rng.choice([2, 6, 15]))
+                fb = struct.pack('<I', cie_off) + struct.pack(A, 0x401000 + 0x200 * f) + struct.pack(A, rng.choice([0x10, 0x1f0])) + prog
+                fb += b'\0' * (-(len(fb) + 4) % asz)
+                sec += struct.pack('<I', len(fb)) + fb
+        secs['.debug_frame'] = bytes(sec)
+        shape['debug_frame'] = vers
+    tiny = dwtab.CU(version=4, asz=asz)
+    tiny.add(0x24, [(0x0b, 0x0b, b'\x04', None)], label='int')
+    unit, ab, _ = tiny.build()
+    secs['.debug_info'] = unit
+    secs['.debug_abbrev'] = ab
+    img = oracles.wrap_debug(secs, True, cls=cls, machine=machine, etype=2, addrs=addrs)
+    shape['machine'] = machine
+    return img, shape
+
+
+# ---------------------------------------------------------------- lookup tables and a small DIE tree
+NAMES = ['main', 'counter', 'ns::inner::fn', 'operator+', 'T<int, char>', 'a_name_that_is_rather_long_for_a_lookup_table_entry', 'x']
+
+
+def gen_names_file(rng):
+    """-> (image, description): 1-3 compile units (base types, variables, subprograms with ranges of code),
+    one .debug_aranges set per unit and .debug_pubnames / .debug_pubtypes sets that name real DIEs."""
+    from .. import oracles
+    le = rng.random() < 0.7
+    cls = rng.choice([32, 64])
+    asz = cls // 8
+    machine = (62 if le else 21) if cls == 64 else (3 if le else 8)
+    E = '<' if le else '>'
+    A = E + ('Q' if asz == 8 else 'I')
+    n = rng.choice([1, 2, 3])
+    info = b''
+    abbrevs = b''
+    aranges = b''
+    pubn = b''
+    pubt = b''
+    code = rng.choice([0x1000, 0x401000])
+    shape = []
+    # a name-keyed table cannot hold the same name twice (overloads, 'int' in every unit): most files keep names
+    # unique over the whole file, some repeat them as real programs do
+    repeat = rng.random() < 0.3
+    seen_n, seen_t = set(), set()
+    all_n, all_t = [], []
+    for i in range(n):
+        ver = rng.choice([2, 3, 4, 5])
+        cu = dwtab.CU(version=ver, asz=asz, le=le)
+        cu.root_name = 'unit%d.c' % i
+        cu.root_attrs = [(0x13, 0x0b, bytes([rng.choice([1, 4, 12, 0x1d])]), None)]      # DW_AT_language
+        types, names = [], []
+        # base types
+        for tname, size, enc in rng.sample([('int', 4, 5), ('char', 1, 6), ('unsigned long', 8, 7), ('double', 8, 4), ('_Bool', 1, 2)], rng.choice([1, 2, 3])):
+            if not repeat:
+                if tname in seen_t:
+                    tname = '%s_%d' % (tname, i)
+                seen_t.add(tname)
+            cu.add(0x24, [(0x0b, 0x0b, bytes([size]), None), (0x3e, 0x0b, bytes([enc]), None)], label=tname)
+            types.append(tname)
+        ranges = []
+        for k in range(rng.choice([1, 2, 4])):
+            nm = rng.choice(NAMES)
+            if not repeat:
+                while nm in seen_n:
+                    nm += '%d' % i
+                seen_n.add(nm)
+            lo = code
+            ln = rng.choice([0x10, 0x44, 0x200])
+            code += ln + rng.choice([0, 0x10])
+            hp = (0x12, 0x01, struct.pack(A, lo + ln), None) if ver < 4 else (0x12, 0x0f, uleb(ln), None)
+            cu.add(0x2e, [(0x3f, 0x0c, b'\x01', None), (0x11, 0x01, struct.pack(A, lo), None), hp,
+                          (0x3a, 0x0b, b'\x01', None), (0x3b, 0x0b, bytes([rng.randrange(1, 200)]), None)], label=nm)
+            names.append(nm)
+            ranges.append((lo, ln))
+        for k in range(rng.choice([0, 1, 2])):
+            nm = rng.choice(NAMES)
+            if not repeat:
+                while nm in seen_n:
+                    nm += '%d' % i
+                seen_n.add(nm)
+            expr = bytes([0x03]) + struct.pack(A, 0x600000 + 8 * k)
+            cu.add(0x34, [(0x3f, 0x0c, b'\x01', None), (0x02, 0x0a if ver < 4 else 0x18,
+                                                        (bytes([len(expr)]) if ver < 4 else uleb(len(expr))) + expr, None)], label=nm)
+            names.append(nm)
+        unit_off = len(info)
+        unit, ab, offs = cu.build(abbrev_base=len(abbrevs))
+        info += unit
+        abbrevs += ab
+        ntyp = len(types)
+        # address ranges: one set per unit, header padded to a multiple of the tuple size
+        body = struct.pack(E + 'HIBB', 2, unit_off, asz, 0)
+        body += b'\0' * (-(len(aranges) + 4 + len(body)) % (2 * asz))
+        for lo, ln in ranges:
+            body += struct.pack(A, lo) + struct.pack(A, ln)
+        body += struct.pack(A, 0) * 2
+        body += b'\0' * (-(len(body) + 4) % (2 * asz))
+        aranges += struct.pack(E + 'I', len(body)) + body
+
+        def table(pairs):
+            b = struct.pack(E + 'HII', 2, unit_off, len(unit))
+            for nm, o in pairs:
+                b += struct.pack(E + 'I', o) + nm.encode() + b'\0'
+            b += struct.pack(E + 'I', 0)
+            return struct.pack(E + 'I', len(b)) + b
+        pubn += table(list(zip(names, offs[ntyp:])))
+        pubt += table(list(zip(types, offs[:ntyp])))
+        shape.append((ver, ntyp, len(names)))
+        all_n += names
+        all_t += types
+    secs = {'.debug_info': info, '.debug_abbrev': abbrevs, '.debug_aranges': aranges, '.debug_pubnames': pubn, '.debug_pubtypes': pubt}
+    img = oracles.wrap_debug(secs, le, cls=cls, machine=machine, etype=2)
+    return img, dict(cls=cls, le=le, units=shape, dup_pubnames=len(set(all_n)) != len(all_n), dup_pubtypes=len(set(all_t)) != len(all_t))
